@@ -523,12 +523,17 @@ func RunPatient(dir string, sc Scenario, patient bool) (*Result, string) {
 
 func lastPanic(stderr string, err error) string {
 	for _, l := range strings.Split(stderr, "\n") {
-		if strings.HasPrefix(l, "panic:") || strings.HasPrefix(l, "fatal error:") || strings.Contains(l, "Assertion") {
+		if strings.HasPrefix(l, "panic:") || strings.HasPrefix(l, "fatal error:") || strings.Contains(l, "Assertion") || strings.Contains(l, "[signal ") {
 			if len(l) > 200 {
 				l = l[:200]
 			}
 			return l
 		}
 	}
-	return err.Error()
+	// nothing recognisable: keep the last lines of what the process wrote
+	t := strings.TrimSpace(stderr)
+	if len(t) > 400 {
+		t = t[len(t)-400:]
+	}
+	return err.Error() + " :: " + strings.ReplaceAll(t, "\n", " | ")
 }
